@@ -114,6 +114,10 @@ def dispatcher(R, prog):
                require=lambda st, ev: 'G:running_tasks=F' in st and any(re.match(r'^G:task(\.operator bool\(\))?=F$', x) or re.match(r'^G:!?task.*=F$', x) for x in st),
                key_fn=lambda ev: P + '.K6:impl::main_loop:leave-only-on-stop-marker-after-drain',
                describe=lambda ev: 'the loop is left only on an empty (stop) task and the function returns only after running_tasks drained to 0', min_sites=1, what='exit')
+    K.check_at(R, P + '.K8', G, res, lambda ev: ev.kind == 'call' and ev.callee() == IMPL + '::remove_vcpu',
+               require=lambda st, ev: 'G:running_tasks=F' in st,
+               key_fn=lambda ev: P + '.K8:impl::main_loop:deregister-only-after-drain',
+               describe=lambda ev: 'the vCPU leaves the registry (which ~impl waits on) only after its running tasks drained', min_sites=1, what='remove_vcpu')
     K.check_at(R, P + '.K8', G, res, recv, require=lambda st, ev: 'S:reg' in st,
                key_fn=lambda ev: P + '.K8:impl::main_loop:registered-before-serving', describe=lambda ev: 'vCPU registered before serving tasks', min_sites=1)
     # destructor
